@@ -2033,7 +2033,9 @@ class Interp:
         if name == "hash":
             return ("hash", self.hash_key(args[0]))
         if name == "id":
-            raise AnalysisError("ABSINT", "id() outside fragment", where)
+            if isinstance(args[0], (AObj, list, dict, set)) or is_native(args[0]):
+                return id(args[0])            # the identity of the (abstract) object: unique while it is alive
+            raise AnalysisError("ABSINT", "id() of a value outside fragment", where)
         if name in _BUILTIN_TYPES:
             raise AnalysisError("ABSINT", f"constructor {name} outside fragment", where)
         raise AnalysisError("ABSINT", f"builtin {name} outside fragment", where)
